@@ -51,6 +51,15 @@ THEMES = {
             ['ID', 'IDN', 'NUM', 'STR', 'REGEX', ';', '=', '{', '}', '[', ']',
              ',', ':', 'GET', 'SET', '(', ')', 'null', 'true', 'false'],
             {'quick': (5, 0), 'thorough': (7, 0)}),
+    # accessors, function expressions with parameters and bodies
+    'acc': ('ParenExpr',
+            ['ID', 'IDN', '{', '}', 'GET', 'SET', '(', ')', ';', ',', ':',
+             'STR', 'NUM'],
+            {'quick': (12, 0), 'thorough': (14, 0)}),
+    'switch': ('Program',
+               ['ID', '{', '}', '(', ')', ':', 'switch', 'case', 'default',
+                'break'],
+               {'quick': (10, 0), 'thorough': (12, 0)}),
     # `/` as division, `/=`, regex after every kind of predecessor
     'slash': ('Program',
               ['ID', 'REGEX', '/', '/=', ';', '(', ')', '{', '}', '[', ']',
@@ -73,6 +82,32 @@ THEMES = {
              '/', ',', 'continue', 'debugger', '[', ']'],
             {'quick': (5, 1), 'thorough': (6, 2)}),
 }
+
+
+ALL_SIGMA = sorted({
+    'ID', 'IDN', 'NUM', 'STR', 'REGEX', 'GET', 'SET', 'this', 'null', 'true',
+    'false', ';', ',', '.', '(', ')', '[', ']', '{', '}', '?', ':',
+    '=', '*=', '/=', '%=', '+=', '-=', '<<=', '>>=', '>>>=', '&=', '^=', '|=',
+    '||', '&&', '|', '^', '&', '==', '!=', '===', '!==', '<', '>', '<=', '>=',
+    'instanceof', 'in', '<<', '>>', '>>>', '+', '-', '*', '/', '%',
+    'delete', 'void', 'typeof', '++', '--', '~', '!', 'new', 'function',
+    'var', 'if', 'else', 'do', 'while', 'for', 'continue', 'break', 'return',
+    'with', 'switch', 'case', 'default', 'throw', 'try', 'catch', 'finally',
+    'debugger'})
+
+
+def simulate(num, maxtok=30, maxnl=0, seed=0, sigma=None, start='Program',
+             depth=600, workers=4):
+    """random deep derivations (tlc -simulate); -> (TLCResult, sentences
+    deduplicated by token string)"""
+    mc, cfg = model_text('sim', start, sigma or ALL_SIGMA, maxtok, maxnl)
+    r = run_tlc('MC_sim', cfg='MC_sim.cfg', cfg_text=cfg,
+                modules={'MC_sim': mc}, workers=workers, heap='4g',
+                simulate=num, depth=depth, seed=seed)
+    sents = {}
+    for s in parse_lines(r.lines, theme='sim'):
+        sents.setdefault(s.key(), s)
+    return r, list(sents.values())
 
 
 def model_text(name, start, sigma, maxtok, maxnl, relax=()):
